@@ -209,7 +209,7 @@ def main(argv=None):
     chunk = getattr(m, "CHUNK", 1)
     timeout = getattr(m, "TIMEOUT", 120)
     results = run_forked(_gen_exec, [(check, s, a.tier) for s in seeds], chunk=chunk,
-                         timeout=timeout * (chunk if chunk > 1 else 1), wall_budget=wall)
+                         timeout=timeout * (chunk if chunk > 1 else 1) + 30, wall_budget=wall, item_timeout=timeout)
 
     # retry harness failures once, serially (a loaded machine must not look like a defect)
     bad = [i for i, r in enumerate(results) if r.get("harness_timeout") or r.get("harness_error")]
@@ -248,6 +248,7 @@ def main(argv=None):
             continue
         new_viol += 1
         if new_viol > 3:
+            print("  (also) clause=%s sig=%s seeds=%s" % (clause, sig, [x["seed"] for x in rs[:5]]))
             continue
         r = min(rs, key=lambda r: len(json.dumps(r.get("case"), default=_jsondefault)))
         case = json.loads(json.dumps(r["case"], default=_jsondefault))
